@@ -594,12 +594,13 @@ class Header:
         :class:`~sigpyproc.io.fileio.FileWriter`
             A file writer object to write data to.
         """
+        # The header must declare the depth the writer packs at: take the depth from
+        # `nbits`, else from `updates`, else from this header, and never modify the
+        # caller's dictionary.
+        updates = {} if updates is None else dict(updates)
         if nbits is None:
-            nbits = self.nbits
-        if updates is None:
-            updates = {}
-        if nbits != self.nbits:
-            updates["nbits"] = nbits
+            nbits = updates.get("nbits", self.nbits)
+        updates["nbits"] = nbits
         new_hdr = self.new_header(updates)
         out_file = FileWriter(
             filename,
